@@ -56,9 +56,10 @@ def checkCached (hostKey : Nat) (c : Option Blob) (cred : Nat) : Bool :=
   | none => chkMissing
   | some .junk => chkBadJson
   | some (.kdf tag pw key) =>
-    match assoc tag fromDb with
-    | none => chkBadKdf
-    | some k => chkFinal (verifyCtx hostKey k pw key cred)
+    if !chkSealedTags.contains tag then chkNotSealed
+    else match assoc tag fromDb with
+      | none => chkBadKdf
+      | some k => chkFinal (verifyCtx hostKey k pw key cred)
 
 /-- `UserToken::kanidm_update_cached_password`: the new value of `extra_keys["kanidm-pw-v1"]`
 (`kdfOk` = `Password::new_argon2id_hsm` and the serialisation succeed). -/
@@ -142,11 +143,15 @@ def World.auth (w : World) (id cred : Nat) : AuthReply × Bool :=
     | none => (.gone, false)
 
 /-- What happens, in order: requests this host sends (`probe`, `tokReq`, `auth`; `ok` = the
-directory verified the password) and what it does to the cached credential of an account. -/
+directory verified the password) and what is done to the cached credential of an account
+(`kdfFailed` = the KDF / TPM failed right after a verification, `purged` = the row was deleted
+because the directory said the account is gone, `cleared` = `clear_cache`, `planted` = somebody
+overwrote the credential in the database). -/
 inductive Ev where
   | probe
   | tokReq (id : Nat)
   | auth (id cred : Nat) (ok : Bool)
+  | kdfFailed (id : Nat)
   | purged (id : Nat)
   | cleared
   | planted (id : Nat) (b : Option Blob)
@@ -274,7 +279,9 @@ def onlineStep (hostKey : Nat) (w : World) (st : St) (id cred : Nat) : St × Pam
     let carried := if authCarriesKeys then carry current else none
     let newCred := if authUpdatesPw then updateCached hostKey w.kdfOk cred carried else carried
     match finish st id (onlineOut cls) { valid := v, cred := newCred } with
-    | (st', r) => (st', r, [.auth id cred (decide (cls = .token))])
+    | (st', r) =>
+      (st', r, .auth id cred (decide (cls = .token)) ::
+        (if decide (cls = .token) && authUpdatesPw && !w.kdfOk then [.kdfFailed id] else []))
 
 /-- `unix_user_offline_auth_step` + the resolver's handling. -/
 def offlineStep (hostKey : Nat) (st : St) (id : Nat) (snap : Tok) (cred : Nat) : St × PamOut :=
@@ -389,5 +396,15 @@ def runFrom (hostKey : Nat) (w : World) (st : St) : List Op → List (Op × Repl
 
 def run (hostKey : Nat) (ops : List Op) : List (Op × Reply × List Ev) :=
   runFrom hostKey World.init St.init ops
+
+/-- The state a history ends in, with all events so far. -/
+def execFrom (hostKey : Nat) (w : World) (st : St) (evs : List Ev) : List Op → World × St × List Ev
+  | [] => (w, st, evs)
+  | op :: rest =>
+    match step hostKey w st op with
+    | (w', st', _, e) => execFrom hostKey w' st' (evs ++ e) rest
+
+def exec (hostKey : Nat) (ops : List Op) : World × St × List Ev :=
+  execFrom hostKey World.init St.init [] ops
 
 end Kanidm.OfflineCache
